@@ -5,7 +5,7 @@ equal the original input's, in order; runs repeated under CPU contention to exer
 from vlib.common import *
 from vlib import pipeline
 
-READERS = {"jar", "apk", "xap", "vsix", "appx", "pe-dll", "pe-exe", "ps1", "ps1xml", "mof", "deb", "rpm", "dmg"}
+READERS = {"jar", "apk", "xap", "vsix", "appx", "pe-dll", "pe-exe", "ps1", "ps1xml", "mof", "deb", "rpm", "dmg", "pgp-clearsign"}
 
 
 def run(t):
